@@ -63,17 +63,28 @@ def sqlq(run, p, sh):
                 run.ob('C08-SQLQ', key, True, 'every slot of the SQL reaching %s is quoted for its context' % norm(call)[:40], fn=f, node=call)
             for i in real:
                 run.ob('C08-SQLQ', key + '::' + norm(i.node)[:30], False, '%s: %s' % (f.short, i.msg), fn=f, node=i.node)
-    for hname in ('quoted',):
-        h = sh.methods.get(hname)
-        if h is None:
-            raise AnalysisError('SQLDatabaseHandler.%s vanished' % hname)
-        gm = GuardMap(h.node)
-        for n, tmpl, ok in taint.delimiter_helper(h):
-            if ok is None:
-                raise AnalysisError('quoting helper template %r not interpretable' % tmpl)
-            run.ob('C08-SQLQ', '%s::%s::%s' % (h.rel, h.short, tmpl), ok,
-                   'quoting helper wraps its argument as %s and %s the closing delimiter inside it'
-                   % (tmpl, 'doubles' if ok else 'does NOT double'), fn=h, node=n)
+    from ..pyeval import Interp, Obj, Unsupported, Raised
+    h = sh.methods.get('quoted')
+    if h is None:
+        raise AnalysisError('SQLDatabaseHandler.quoted vanished')
+    for dbtype in ('sqlite', 'postgres', 'mysql', 'sqlserver'):
+        bad = []
+        for name in ('col', 'two words', 'quo"te', 'back`tick', 'brack]et', 'a""b', '``', ']]', '"; DROP TABLE t; --', ''):
+            o = Obj(sh)
+            o.attrs['dbtype'] = dbtype
+            try:
+                got = Interp(p).call(h, [name], selfobj=o)
+            except (Unsupported, Raised) as e:
+                raise AnalysisError('quoted is not evaluable: %s' % e)
+            ok = isinstance(got, str) and len(got) >= 2
+            if ok:
+                op, cl, inner = got[0], got[-1], got[1:-1]
+                ok = (op, cl) in (('"', '"'), ('`', '`'), ('[', ']')) and inner.replace(cl * 2, '').count(cl) == 0 and inner.replace(cl * 2, cl) == name
+            if not ok:
+                bad.append((name, got))
+        run.ob('C08-SQLQ', '%s::%s::%s' % (h.rel, h.short, dbtype), not bad,
+               'quoted() for %s wraps a name in its delimiters and doubles the closing delimiter inside it%s' % (
+                   dbtype, '' if not bad else ' - not for %r: %r' % bad[0]), fn=h)
     run.floor('C08-SQLQ', nsites, 15)
 
 
